@@ -467,6 +467,16 @@ def check_folder(f: FuncInfo, r3) -> None:
             obligations.append(("negative base only with int exponent (complex result)", negative_base_needs_int_exponent(conj, L, R)))
         if op is ast.Mult and seq:
             obligations.append(("upper bound on the repeated sequence length (MemoryError / unbounded time)", bounded_above(conj, ["len("])))
+            count = L if lt <= {"int", "bool"} else R
+
+            def name_bounded(c) -> bool:
+                if isinstance(c, ast.BoolOp) and isinstance(c.op, ast.And):
+                    return any(name_bounded(v) for v in c.values)
+                if isinstance(c, ast.Compare):
+                    operands = [c.left] + list(c.comparators)
+                    return any(isinstance(o, (ast.Lt, ast.LtE)) and isinstance(operands[i], ast.Name) and operands[i].id == count for i, o in enumerate(c.ops))
+                return False
+            obligations.append(("upper bound on the repetition count itself (OverflowError: the count must fit an index even when the sequence is empty)", any(name_bounded(c) for c in conj) or caught("OverflowError")))
         for what, ok in obligations:
             key = f"{f.qualname}: {norm(n)} [{'/'.join(sorted(lt))} , {'/'.join(sorted(rt))}] needs {what}"
             if ok:
